@@ -45,8 +45,22 @@ type workResp struct {
 	Outcomes map[string]int `json:"outcomes"`
 }
 
+var atExit []func()
+
+// AtExit registers a cleanup run when Main returns (fixture directories etc.).
+func AtExit(f func()) { atExit = append(atExit, f) }
+
 // Main is the entry point of every harness binary.
 func Main(all []*Scenario) {
+	defer func() {
+		for _, f := range atExit {
+			f()
+		}
+	}()
+	mainImpl(all)
+}
+
+func mainImpl(all []*Scenario) {
 	var (
 		fList    = flag.Bool("list", false, "list scenarios")
 		fScen    = flag.String("scenario", "", "comma-separated scenario names (default: all)")
@@ -97,7 +111,11 @@ func Main(all []*Scenario) {
 		}
 	}
 	if *fReplay != "" {
-		os.Exit(replayFile(byName, *fReplay, *fTier))
+		rc := replayFile(byName, *fReplay, *fTier)
+		for _, f := range atExit {
+			f()
+		}
+		os.Exit(rc)
 	}
 	if os.Getenv("VRT_DEBUG") != "" {
 		Debug = true
